@@ -707,7 +707,7 @@ def c05(run, vc):
     ok = _multi_stage(run, vc, tables, [
         ("MC_SigNet", "MC_SigNet_single_%s.cfg" % tier, cross_sig, "a signature made under one scheme presented under another (all ordered pairs), incl. sums with signatures of other schemes"),
         ("MC_SigNet", "MC_SigNet_pop_%s.cfg" % tier, lambda v: (v["act"] == "Verify") or (v["act"] == "PopVerify" and any(o["op"] == "AsPop" for o in v["proof"]["ops"])), "a signature over the public-key bytes presented as a proof of possession and a proof of possession presented as a signature, every scheme"),
-        ("MC_Pok", "MC_Pok_%s.cfg" % tier, lambda v: v["pert"] in ("label", "pop_as_sig") or (v["pert"] == "none" and v["act"] == "Pok" and v["scheme"] != "Aug"), "a proof of knowledge relabelled to another scheme; a proof of possession presented as a signature inside a proof of knowledge; honest proofs of the Basic and PoP schemes (the tag the prover and the verifier use is the scheme's; the MessageAugmentation proof is finding D6 under C10)"),
+        ("MC_Pok", "MC_Pok_%s.cfg" % tier, lambda v: v["pert"] in ("label", "pop_as_sig", "cross_forge") or (v["pert"] == "none" and v["scheme"] != "Aug" and v["act"] in ("Pok", "PokTs")), "a proof of knowledge relabelled to another scheme; a timestamp proof for another scheme forged from a challenge obtained for another commitment; a proof of possession presented as a signature inside a proof of knowledge; honest proofs of the Basic and PoP schemes (the tag the prover and the verifier use is the scheme's; the MessageAugmentation proof is finding D6 under C10)"),
         ("MC_SignCrypt", "MC_SignCrypt_%s.cfg" % tier, lambda v: v["act"] in ("IsValid", "Decrypt") and any(o["op"] == "Relabel" for o in v["ct"]["ops"]), "a signcryption ciphertext relabelled to each other scheme"),
         ("MC_TimeLock", "MC_TimeLock_%s.cfg" % tier, lambda v: v["act"] == "TLDecrypt" and (v["relabelled"] or v["sig"]["scheme"] != v["ct"]["scheme0"] or v["sig"]["label"] != v["sig"]["scheme"]) and v["sig"]["label"] == v["sig"]["scheme"], "a time-lock ciphertext opened with a genuine signature of another scheme, and a relabelled ciphertext"),
     ])
